@@ -264,4 +264,56 @@ def gen_loess_solver(repo=None):
     return '\n'.join(lines) + '\n'
 
 
-GENERATORS = {'GenLoessState': gen_loess_state, 'GenLoessSolver': gen_loess_solver}
+def gen_loess_driver(repo=None):
+    """GenLoessDriver: the control skeleton of the iteration in _Polynomial.loess: the loop range, every statement that
+    can leave the loop (break / return / continue / raise) with the test guarding it, how the tested quantity is computed
+    and what is recorded in tol_history (fail closed: exactly one for-loop over range(...) containing a break)."""
+    tree, _ = _parse(REL, repo)
+    cls = [st for st in tree.body if isinstance(st, ast.ClassDef) and st.name == '_Polynomial']
+    if not cls:
+        raise TranslateError('class _Polynomial not found')
+    meth = [c for c in cls[0].body if isinstance(c, ast.FunctionDef) and c.name == 'loess']
+    if not meth:
+        raise TranslateError('_Polynomial.loess not found')
+    loops = [n for n in ast.walk(meth[0]) if isinstance(n, (ast.For, ast.While))
+             and any(isinstance(m, ast.Break) for m in ast.walk(n))]
+    if len(loops) != 1 or not isinstance(loops[0], ast.For) or loops[0].orelse:
+        raise TranslateError(f'_Polynomial.loess: expected exactly one for-loop with a break, found {len(loops)}')
+    loop = loops[0]
+    exits = []
+
+    def visit(stmts, guards):
+        for st in stmts:
+            if isinstance(st, (ast.Break, ast.Continue, ast.Return, ast.Raise)):
+                exits.append((type(st).__name__.lower(), ' and '.join(guards) if guards else 'True'))
+            elif isinstance(st, ast.If):
+                t = ast.unparse(st.test)
+                visit(st.body, guards + [f'({t})'])
+                visit(st.orelse, guards + [f'(not ({t}))'])
+            elif isinstance(st, (ast.For, ast.While, ast.With, ast.Try)):
+                raise TranslateError(f'_Polynomial.loess: nested {type(st).__name__} inside the iteration')
+    visit(loop.body, [])
+    tested = set()
+    for kind, g in exits:
+        for n in ast.walk(ast.parse(g, mode='eval')):
+            if isinstance(n, ast.Name):
+                tested.add(n.id)
+    defs = []
+    for st in loop.body:
+        if isinstance(st, ast.Assign) and len(st.targets) == 1:
+            tgt = ast.unparse(st.targets[0])
+            if tgt in tested or tgt.startswith('tol_history') or tgt == 'baseline_old':
+                defs.append(ast.unparse(st))
+    lines = ['(* Generated by tools/gen_loess_state.py from the current /repo source; do not edit. *)',
+             'From Coq Require Import List String.',
+             'Import ListNotations.',
+             'Open Scope string_scope.',
+             '',
+             f'Definition loess_loop_header : string := "{("for " + ast.unparse(loop.target) + " in " + ast.unparse(loop.iter))}".',
+             'Definition loess_loop_exits : list (string * string) := ['
+             + '; '.join(f'("{k}", "{g}")' for k, g in exits) + '].',
+             f'Definition loess_loop_defs : list string := {_coq_strings(defs)}.']
+    return '\n'.join(lines) + '\n'
+
+
+GENERATORS = {'GenLoessState': gen_loess_state, 'GenLoessSolver': gen_loess_solver, 'GenLoessDriver': gen_loess_driver}
